@@ -174,13 +174,34 @@ def simple_spec(rng, n=None):
     return gen_spec(rng, nsurf=n, allow=['plane', 'standard', 'conic'], mirrors=False, decenter=False)
 
 
-def build(spec):
+def build_via(spec, mode, rng):
+    """the same prescription reached through another public route:
+    'reuse'     - an Optic object that held a DIFFERENT lens before, emptied with reset() and filled again;
+    'roundtrip' - built, converted with to_dict() and restored with Optic.from_dict();
+    anything else - built directly"""
+    from optiland.optic import Optic
+    if mode == 'reuse':
+        other = gen_spec(rng, nsurf=len(spec['surfaces']), allow=['plane', 'standard'], mirrors=False, decenter=False)
+        o = build(other)
+        try:
+            o.paraxial.f2(); o.paraxial.EPL()       # the helpers have been used on the old lens
+        except Exception:   # noqa
+            pass
+        o.reset()
+        return build(spec, optic=o)
+    o = build(spec)
+    if mode == 'roundtrip':
+        o = Optic.from_dict(o.to_dict())
+    return o
+
+
+def build(spec, optic=None):
     import numpy as np
     from optiland.optic import Optic
     from optiland.materials import IdealMaterial, Material
     from optiland.physical_apertures import RadialAperture
     from optiland.coatings import SimpleCoating
-    o = Optic()
+    o = Optic() if optic is None else optic
     okw = {}
     if spec.get('object_material'):      # ['ideal', n, k]: object-space medium (C09)
         okw['material'] = IdealMaterial(n=spec['object_material'][1], k=spec['object_material'][2])
